@@ -20,7 +20,8 @@ def jobs(tier, ws, prop='C11'):
                   canaries=['grew', 'agg_error_returned', 'wrote'], unwind=40, kind='bounded', timeout=600, rfp=True,
                   bound='2 sub-requests with symbolic access ranges', assumptions=['wait_getput: calculate_access_range, qsort and req_aggregation by (assumed) contract']))
     if prop == 'C11':
-        import C16, C19
+        import C16, C19, C08
+        js.append(C08.close_files_job('C11'))   # F24
         js += [j for j in C16.jobs(tier, ws, prop='C11') if 'fillerup' in j.name][:2]   # F22: failed fill write at enddef reported
         js += [j for j in C19.var_jobs(tier, 'C11') if 'ndims2' in j.name][:1]   # F21: failed header read never becomes success
     import C02
